@@ -3,7 +3,7 @@ package log
 import "context"
 
 //verif:witness H_C16_lifecycle end
-//verif:bound C16 quick every operation sequence of length 1..3 over {Refresh(valid sync cfg), Refresh(valid async cfg), Refresh(invalid, early failure), Refresh(invalid, late failure after rebinding), Destroy, log via tag, write via named handle, register tag, obtain handle, log via a tag served by the configured root logger} on the real package globals, real Refresh/Destroy through the reflect shim; worker scheduled at blocking points
+//verif:bound C16 quick every operation sequence of length 1..3 over {Refresh(valid sync cfg), Refresh(valid async cfg), Refresh(invalid, early failure), Refresh(invalid, late failure after rebinding or in the start phase of an async logger), Destroy, log via tag, write via named handle, register tag, obtain handle, log via a tag served by the configured root logger} on the real package globals, real Refresh/Destroy through the reflect shim; worker scheduled at blocking points
 //verif:bound C16 thorough sequences of length 1..5
 //verif:assume C16 after a Refresh that failed late (configured flag set, nothing registered for Destroy) the harness does not judge whether registration is refused; it does judge that logging neither panics nor blocks and that Destroy returns the system to the unconfigured state
 
@@ -116,7 +116,18 @@ func H_C16_lifecycle() {
 			err := Refresh(map[string]string{"logger.l1.type": "Logger"})
 			vAssert(err != nil, "invalid-configuration-is-an-error")
 		case 3: // Refresh(invalid): fails late, after tags were rebound
-			err := Refresh(vCfg(vChoose("lateAsync", 2) == 1, true))
+			var cfg map[string]string
+			switch vChoose("lateAsync", 3) {
+			case 0:
+				cfg = vCfg(false, true)
+			case 1:
+				cfg = vCfg(true, true)
+			default:
+				// fails in the start phase: an async logger whose buffer size is below the minimum
+				cfg = vCfg(true, false)
+				cfg["logger.l1.bufferSize"] = "50"
+			}
+			err := Refresh(cfg)
 			vAssert(err != nil, "late-invalid-configuration-is-an-error")
 			if !st.live && !st.failed {
 				st.failed = true
